@@ -96,6 +96,8 @@ def gen_case(rng):
         if rng.random() < 0.25:
           ops[-1]['_parse_enter'] = [{'k': 'name', 'v': rng.choice(['setup', 'a', 'c/b'])}]
   ops.append({'op': 'config'})
+  if rng.random() < 0.35:
+    ops.append({'op': 'finalize'})    # the same calls on a locked configuration
   for _ in range(rng.randint(2, 5)):
     c = rng.choice(consumers)
     call = G.gen_call(rng, c, G.gen_enter(rng, rng.choice(scopes)), w_required=rng.choice([0.0, 0.0, 0.3]), w_bad=0.0)
